@@ -245,6 +245,32 @@ func oC02Tune(ix *Index) []Violation {
 	return out
 }
 
+// oC02Limit: the limit in force is the configured one, n < 1 meaning the number of CPUs: a
+// NumConcurrency() reading taken while no TunePool call is in progress equals it.
+func oC02Limit(ix *Index) []Violation {
+	var out []Violation
+	for _, c := range ix.ByOp["nconc"] {
+		if !c.Returned() {
+			continue
+		}
+		want := resolveConc(ix.C.Cfg.Conc)
+		busy := false
+		for _, t := range ix.ByOp["tune"] {
+			if t.Call < c.Ret && t.end(ix.N) > c.Call {
+				busy = true
+			}
+			if t.Returned() && t.Ret < c.Call && t.RetEv.E == "" {
+				want = resolveConc(int(t.CallEv.I))
+			}
+		}
+		if !busy && int(c.RetEv.I) != want {
+			out = append(out, v("C02", "limit-value", "NumConcurrency() = %d at [%d,%d], the configured limit is %d (a value < 1 means NumCPU = %d)", c.RetEv.I, c.Call, c.Ret, want, NumCPU))
+			return out
+		}
+	}
+	return out
+}
+
 // ---------------------------------------------------------------- C03
 
 func (ix *Index) curLimit(pos int) int {
